@@ -15,7 +15,7 @@ import (
 func init() {
 	register(&Prop{
 		ID:          "C09",
-		Explanation: "Decides the wiring of the lifetime threshold: encryption.Validate reports ok only if expiration==0 or the signed timestamp t (time.Unix of the integer parsed from the MAC-covered timestamp part) satisfies t.After(time.Now().Add(-expiration)) and t.Before(time.Now().Add(5 minutes)) with exactly those operands; every caller passes Cookie.Expire as the expiration; the timestamp signed into session and ticket cookies is *CreatedAt of the session being saved and SignedValue writes now.Unix(); SessionStore.Save implementations stamp CreatedAt only when it is unset; refreshSession stamps CreatedAtNow() on the session before re-saving it; MakeCookieFromOptions derives Max-Age from its expiration argument, which for session/ticket cookies is Cookie.Expire (CSRF: Cookie.CSRFExpire, deletions: a negative constant); the server-side entry's TTL is Cookie.Expire passed unchanged through ticket.saveSession -> Store.Save -> redis Set. Added during the build: SessionStore.Save implementations stamp CreatedAt only when unset (R6); refreshSession resets the issue time only when the provider refreshed or reported ErrNotImplemented (R7); every cookie sent derives from the constructors that carry Max-Age (R8, shared with C18.R1). Round 4: request-reachable code never writes a field of the shared options.Cookie (R9); every Provider.RefreshSession answers true only as its delegate's verdict, after the delegate answered true, or after its own token redemption returned no error, so refreshSession never re-stamps an unrefreshed session (R10).",
+		Explanation: "Decides the wiring of the lifetime threshold: encryption.Validate reports ok only if expiration==0 or the signed timestamp t (time.Unix of the integer parsed from the MAC-covered timestamp part) satisfies t.After(time.Now().Add(-expiration)) and t.Before(time.Now().Add(5 minutes)) with exactly those operands; every caller passes Cookie.Expire as the expiration; the timestamp signed into session and ticket cookies is *CreatedAt of the session being saved and SignedValue writes now.Unix(); SessionStore.Save implementations stamp CreatedAt only when it is unset; refreshSession stamps CreatedAtNow() on the session before re-saving it; MakeCookieFromOptions derives Max-Age from its expiration argument, which for session/ticket cookies is Cookie.Expire (CSRF: Cookie.CSRFExpire, deletions: a negative constant); the server-side entry's TTL is Cookie.Expire passed unchanged through ticket.saveSession -> Store.Save -> redis Set. Added during the build: SessionStore.Save implementations stamp CreatedAt only when unset (R6); refreshSession resets the issue time only when the provider refreshed or reported ErrNotImplemented (R7); every cookie sent derives from the constructors that carry Max-Age (R8, shared with C18.R1). Round 4: request-reachable code never writes a field of the shared options.Cookie (R9); every Provider.RefreshSession answers true only as its delegate's verdict, after the delegate answered true, or after its own token redemption returned no error, so refreshSession never re-stamps an unrefreshed session (R10). Round 6: SessionState.CreatedAt is written only by CreatedAtNow or copied from another session's CreatedAt (R11).",
 		NotDecided:  "second-granularity/off-by-one semantics of time.After/Before and Unix truncation (values); behaviour of Redis TTLs.",
 		Run:         runC09,
 	})
@@ -46,10 +46,12 @@ func runC09(c *Ctx) {
 	r.Rule("R8-cookies-carry-maxage", "every cookie sent derives from MakeCookieFromOptions/copyCookie, which carry Max-Age (shared with C18.R1)", 9)
 	r.Rule("R9-cookie-options-frozen", "request-reachable code never writes a field of the shared options.Cookie (lifetime, refresh period, secret, ...)", 1)
 	r.Rule("R10-refreshed-verdict", "a provider's RefreshSession answers true only as its delegate's verdict or after its own token redemption succeeded", 5)
+	r.Rule("R11-issue-time-is-own-clock", "SessionState.CreatedAt is written only by CreatedAtNow (the proxy's own clock) or copied from another session's CreatedAt; never taken from a token or a response", 2)
 	r.Rule("R6-save-keeps-stamp", "SessionStore.Save implementations stamp CreatedAt only when unset", 2)
 
 	runC09R9(c, "R9-cookie-options-frozen")
 	runC09R10(c, "R10-refreshed-verdict")
+	runC09R11(c, "R11-issue-time-is-own-clock")
 
 	rule := "R1-window"
 	validate := c.Fn(rule, "pkg/encryption.Validate")
@@ -710,6 +712,41 @@ func runStoreTTLChain(c *Ctx, rule string) {
 	ttlLink("(*pkg/sessions/redis.SessionStore).Save", func(cc *ssa.CallCommon) bool {
 		return cc.IsInvoke() && cc.Method.Name() == "Set"
 	}, 3, paramN(4), "Client.Set(ctx, key, value, exp)")
+	// a save that reports success has written: on every nil-error return of the redis store's Save the client's Set was
+	// called with the function's own key, value and expiration and returned no error (cookie-expire=0 — a browser-session
+	// cookie — is a valid lifetime, not "nothing to store")
+	if rsave := c.Fn(rule, "(*pkg/sessions/redis.SessionStore).Save"); rsave != nil && len(rsave.Params) >= 5 {
+		key := "save-writes|" + fnKey(rsave)
+		n, bad := 0, false
+		c.WalkShallow(rule, rsave, func(p *walk.Path) {
+			ev, ok := p.ReturnDV(0)
+			if !ok || bad || definitelyNonNil(p, ev, p.End()) {
+				return // a failure: nothing is claimed to have been saved
+			}
+			n++
+			for _, cl := range p.Calls() {
+				if cl.C.IsInvoke() && cl.C.Method.Name() == "Set" && len(cl.C.Args) >= 4 {
+					same := p.Resolve(p.StepOp(cl.C.Args[1], cl.Step)).V == ssa.Value(rsave.Params[2]) && p.Resolve(p.StepOp(cl.C.Args[2], cl.Step)).V == ssa.Value(rsave.Params[3]) && p.Resolve(p.StepOp(cl.C.Args[3], cl.Step)).V == ssa.Value(rsave.Params[4])
+					if !same {
+						continue
+					}
+					if isNil, k := p.ResultNil(cl.DV(), -1, p.End()); k && isNil {
+						return
+					}
+					if p.Key(ev) == p.ResultKey(cl.DV(), -1) {
+						return // Set's own error handed back as is
+					}
+				}
+			}
+			bad = true
+			c.bad(rule, key, p.Exit, "the redis store's Save reports success on a path where the entry was not written with the given key, value and expiration: the cookie naming it is handed out and the next request loads nothing", p, p.End())
+		})
+		if !bad && n > 0 {
+			c.R.OK(rule, key, c.P.Pos(rsave.Pos()), sprintf("%d return(s) that may report success, each after Client.Set(ctx, key, value, exp) == nil", n))
+		} else if !bad {
+			c.R.Unknown(rule, key, c.P.Pos(rsave.Pos()), "Save has no nil-error return")
+		}
+	}
 	// the redis client wrappers: every go-redis SET-family command issued by the wrapper — directly or in a module helper
 	// it calls — is given the wrapper's own expiration parameter (a constant 0, KeepTTL or a computed value is not it)
 	const goRedis = "github.com/redis/go-redis/v9"
@@ -778,4 +815,52 @@ func runStoreTTLChain(c *Ctx, rule string) {
 		}
 	}
 
+}
+
+// runC09R11: the lifetime is counted from CreatedAt, which the stores sign into the cookie. Every store to
+// SessionState.CreatedAt in the module is the one in CreatedAtNow — the address of a local holding Clock.Now() — or
+// copies another session's CreatedAt. A value taken from outside (the ID token's iat, a response field) moves the
+// start of the lifetime by the other party's clock: an issuer a few minutes ahead buys that much extra validity.
+func runC09R11(c *Ctx, rule string) {
+	createdF := c.Field(rule, "pkg/apis/sessions.SessionState.CreatedAt")
+	stamp := c.Fn(rule, "(*pkg/apis/sessions.SessionState).CreatedAtNow")
+	if createdF == nil || stamp == nil {
+		return
+	}
+	n := 0
+	for _, ref := range c.fieldRefs(createdF) {
+		if ref.Store == nil {
+			continue
+		}
+		n++
+		key := "created-at-writer|" + fnKey(ref.Fn)
+		v := unwrap0(ref.Store.Val)
+		switch {
+		case ref.Fn == stamp:
+			okNow := false
+			if al, isAlloc := v.(*ssa.Alloc); isAlloc {
+				for _, st := range storesTo(al) {
+					if call, isCall := unwrap0(st.Val).(*ssa.Call); isCall {
+						if call.Call.IsInvoke() && call.Call.Method.Name() == "Now" {
+							okNow = true
+						} else if sc := call.Call.StaticCallee(); sc != nil && sc.Name() == "Now" {
+							okNow = true
+						}
+					}
+				}
+			}
+			if okNow {
+				c.ok(rule, key, ref.In, "CreatedAtNow stores the address of Clock.Now()'s result")
+			} else {
+				c.R.Bad(rule, key, c.pos(ref.In), "CreatedAtNow no longer stamps the result of Clock.Now()", nil, nil)
+			}
+		case walk.IsFieldLoad(v, createdF):
+			c.ok(rule, key, ref.In, "copied from another session's CreatedAt")
+		default:
+			c.R.Bad(rule, key, c.pos(ref.In), "the session's issue time is set from something other than the proxy's own clock (CreatedAtNow) or another session's CreatedAt: cookie-expire is then counted from a time another party chose, and a clock ahead of the proxy's extends the lifetime", nil, nil)
+		}
+	}
+	if n == 0 {
+		c.R.Unknown(rule, "created-at-writer|none", "-", "no store to SessionState.CreatedAt found")
+	}
 }
